@@ -45,15 +45,23 @@
 (*    (refused there with STATE_ERROR) instead of being forwarded          *)
 (*                                                                         *)
 (* The lock engine is abstracted to ONE exclusive key with a FIFO wait     *)
-(* queue (lock with timeout 0, lock that waits, lock with the concurrent   *)
-(* check flag, unlock); it is the same engine for L and for N.             *)
+(* queue and re-entrant depth <= 2.  Request classes: lock0 (no wait),     *)
+(* lockw (waits), lockr (no wait, Rcount > 0: the holder's re-lock is      *)
+(* granted), lockc (concurrent-check flag, no wait), lockcw (concurrent-   *)
+(* check flag WITH a wait time), unlock (one level).  Same engine for L    *)
+(* and N.  The follower-local fast path (LockDB.CheckProbableLock) is      *)
+(* taken for lockc ONLY - flag AND Timeout = 0 AND the replica shows the   *)
+(* key held; FastPathOr = TRUE models the guard written with OR (every     *)
+(* no-wait lock and every concurrent-check lock): TLC then refutes         *)
+(* FastPathAgreesWithLeader with a holder's lockr answered TIMEOUT by the  *)
+(* follower while the leader would grant it.                               *)
 (***************************************************************************)
 EXTENDS Integers, Sequences, FiniteSets, TLC, Json
 
 CONSTANTS BinConns, TextConns,  \* client connections on node N
           DirConns,             \* client connections on the leader L
           Lids, Ops, MaxReq, MaxFaults,
-          RollbackLatestOnly, FirstTextLocal, AllowDemote, RecordHist
+          RollbackLatestOnly, FirstTextLocal, FastPathOr, AllowDemote, RecordHist
 
 NConns == BinConns \cup TextConns
 Conns  == NConns \cup DirConns
@@ -75,9 +83,10 @@ VARIABLES role,     \* N's own role: "follower" | "leader"
           dec,      \* ghost: request id -> what the deciding engine decided ("none", "queued", result)
           via,      \* ghost: request id -> [c, g] upstream instance that carried it (g = 0: decided on the node it was sent to)
           orphan,   \* ghost: requests left without any reply by an upstream break
+          fpbad,    \* ghost: the fast path answered TIMEOUT although the (in-sync) leader would have granted
           nf, hist
 
-vars == <<role, known, eng, req, inb, wrapped, first, up, gen, upq, downq, latest, twait, rep, dec, via, orphan, nf, hist>>
+vars == <<role, known, eng, req, inb, wrapped, first, up, gen, upq, downq, latest, twait, rep, dec, via, orphan, fpbad, nf, hist>>
 
 SUCCED == "SUCCED"   TIMEOUT == "TIMEOUT"   LOCKED == "LOCKED_ERROR"   UNLOCKERR == "UNLOCK_ERROR"
 STATEERR == "STATE_ERROR"   ERROR == "ERROR"
@@ -91,21 +100,31 @@ H(op, c) == IF RecordHist THEN Append(hist, [op |-> op, c |-> c, rop |-> "", lid
 -----------------------------------------------------------------------------
 \* the engine: one exclusive key, FIFO queue.  Decide returns the new engine and the replies it emits.
 Decide(e, rid) ==
-    LET r == req[rid] IN
+    LET r == req[rid]
+        one(res) == [e |-> e, out |-> <<[rid |-> rid, res |-> res]>>, q |-> FALSE]
+    IN
     IF r.op = "unlock"
     THEN IF e.holder = r.lid
-         THEN IF e.wq = <<>>
-              THEN [e |-> [e EXCEPT !.holder = 0], out |-> <<[rid |-> rid, res |-> SUCCED]>>, q |-> FALSE]
-              ELSE [e |-> [holder |-> req[Head(e.wq)].lid, wq |-> Tail(e.wq)],
+         THEN IF e.depth > 1
+              THEN [e |-> [e EXCEPT !.depth = @ - 1], out |-> <<[rid |-> rid, res |-> SUCCED]>>, q |-> FALSE]
+              ELSE IF e.wq = <<>>
+              THEN [e |-> [e EXCEPT !.holder = 0, !.depth = 0], out |-> <<[rid |-> rid, res |-> SUCCED]>>, q |-> FALSE]
+              ELSE [e |-> [holder |-> req[Head(e.wq)].lid, depth |-> 1, wq |-> Tail(e.wq)],
                     out |-> <<[rid |-> rid, res |-> SUCCED], [rid |-> Head(e.wq), res |-> SUCCED]>>, q |-> FALSE]
-         ELSE [e |-> e, out |-> <<[rid |-> rid, res |-> UNLOCKERR]>>, q |-> FALSE]
+         ELSE one(UNLOCKERR)
     ELSE IF e.holder = 0
-         THEN [e |-> [e EXCEPT !.holder = r.lid], out |-> <<[rid |-> rid, res |-> SUCCED]>>, q |-> FALSE]
+         THEN [e |-> [e EXCEPT !.holder = r.lid, !.depth = 1], out |-> <<[rid |-> rid, res |-> SUCCED]>>, q |-> FALSE]
+         ELSE IF r.op = "lockc" THEN one(TIMEOUT)                \* LockDB.Lock's own fast path: flag, no wait, key full - whoever holds
          ELSE IF e.holder = r.lid
-              THEN [e |-> e, out |-> <<[rid |-> rid, res |-> LOCKED]>>, q |-> FALSE]
-              ELSE IF r.op = "lockw"
+              THEN IF r.op = "lockr" /\ e.depth < 2
+                   THEN [e |-> [e EXCEPT !.depth = @ + 1], out |-> <<[rid |-> rid, res |-> SUCCED]>>, q |-> FALSE]
+                   ELSE one(LOCKED)
+              ELSE IF r.op \in {"lockw", "lockcw"}
                    THEN [e |-> [e EXCEPT !.wq = Append(@, rid)], out |-> <<>>, q |-> TRUE]
-                   ELSE [e |-> e, out |-> <<[rid |-> rid, res |-> TIMEOUT]>>, q |-> FALSE]
+                   ELSE one(TIMEOUT)
+
+\* the guard of LockDB.CheckProbableLock on the request alone (the replica test follows)
+FastGuard(op) == IF FastPathOr THEN op \in {"lock0", "lockr", "lockc", "lockcw"} ELSE op = "lockc"
 
 \* routing of engine replies: to the client connection itself (decided where it was sent) or into the downstream
 \* queue of the upstream instance that carried the request; dropped when that instance is gone
@@ -127,7 +146,7 @@ NewDec(out, rid, q) ==
 Init ==
     /\ role \in {"follower"} \cup (IF AllowDemote THEN {"leader"} ELSE {})
     /\ known = TRUE
-    /\ eng = [n \in {"L", "N"} |-> [holder |-> 0, wq |-> <<>>]]
+    /\ eng = [n \in {"L", "N"} |-> [holder |-> 0, depth |-> 0, wq |-> <<>>]]
     /\ req = <<>>
     /\ inb = [c \in Conns |-> <<>>]
     /\ wrapped = [c \in NConns |-> role = "follower"]
@@ -142,6 +161,7 @@ Init ==
     /\ dec = <<>>
     /\ via = <<>>
     /\ orphan = {}
+    /\ fpbad = FALSE
     /\ nf = 0
     /\ hist = <<>>
 
@@ -154,7 +174,7 @@ ClientSend(c, op, lid) ==
     /\ dec' = Append(dec, "none")
     /\ via' = Append(via, [c |-> c, g |-> 0])
     /\ hist' = IF RecordHist THEN Append(hist, [op |-> "send", c |-> c, rop |-> op, lid |-> lid]) ELSE hist
-    /\ UNCHANGED <<role, known, eng, wrapped, first, up, gen, upq, downq, latest, twait, rep, orphan, nf>>
+    /\ UNCHANGED <<role, known, eng, wrapped, first, up, gen, upq, downq, latest, twait, rep, orphan, fpbad, nf>>
 
 \* a request decided by the engine of the node it was sent to (L for direct connections, N while N leads)
 DecideOwn(c, n) ==
@@ -169,7 +189,7 @@ DecideOwn(c, n) ==
 DirProcess(c) ==
     /\ c \in DirConns /\ inb[c] # <<>>
     /\ DecideOwn(c, "L")
-    /\ UNCHANGED <<role, known, req, wrapped, first, up, gen, upq, latest, twait, via, orphan, nf, hist>>
+    /\ UNCHANGED <<role, known, req, wrapped, first, up, gen, upq, latest, twait, via, orphan, fpbad, nf, hist>>
 
 LocalReply(c, rid, res) == rep' = [rep EXCEPT ![c] = Append(@, [rid |-> rid, res |-> res, src |-> "local"])]
 
@@ -181,7 +201,7 @@ NodeProcess(c) ==
        THEN \* AGAIN: the inner protocol decides on N's own engine
             /\ DecideOwn(c, "N")
             /\ first' = [first EXCEPT ![c] = FALSE]
-            /\ UNCHANGED <<role, known, req, wrapped, up, gen, upq, latest, twait, via, orphan, nf, hist>>
+            /\ UNCHANGED <<role, known, req, wrapped, up, gen, upq, latest, twait, via, orphan, fpbad, nf, hist>>
        ELSE
          /\ wrapped' = [wrapped EXCEPT ![c] = TRUE]
          /\ first' = [first EXCEPT ![c] = FALSE]
@@ -189,18 +209,20 @@ NodeProcess(c) ==
          /\ \/ \* deviation: first command of a text connection run by the inner handlers -> refused by N's own engine
                /\ FirstTextLocal /\ c \in TextConns /\ first[c] /\ wrapped[c]
                /\ LocalReply(c, rid, STATEERR)
-               /\ UNCHANGED <<up, gen, upq, latest, twait, via, downq, dec, eng>>
+               /\ UNCHANGED <<up, gen, upq, latest, twait, via, downq, dec, eng, fpbad>>
             \/ \* concurrent-check fast path answered from the replica
-               /\ req[rid].op = "lockc" /\ eng["N"].holder # 0
+               /\ FastGuard(req[rid].op) /\ eng["N"].holder # 0
                /\ LocalReply(c, rid, TIMEOUT)
+               /\ fpbad' = (fpbad \/ (eng["N"].holder = eng["L"].holder /\ eng["N"].depth = eng["L"].depth 
+                                      /\ Decide(eng["L"], rid).out # <<>> /\ Decide(eng["L"], rid).out[1].res = SUCCED))
                /\ UNCHANGED <<up, gen, upq, latest, twait, via, downq, dec, eng>>
             \/ \* no upstream and no reachable leader: refused
-               /\ ~(req[rid].op = "lockc" /\ eng["N"].holder # 0)
+               /\ ~(FastGuard(req[rid].op) /\ eng["N"].holder # 0)
                /\ up[c] = "none" /\ ~known
                /\ LocalReply(c, rid, STATEERR)
-               /\ UNCHANGED <<up, gen, upq, latest, twait, via, downq, dec, eng>>
+               /\ UNCHANGED <<up, gen, upq, latest, twait, via, downq, dec, eng, fpbad>>
             \/ \* forwarded (the upstream is opened first when there is none)
-               /\ ~(req[rid].op = "lockc" /\ eng["N"].holder # 0)
+               /\ ~(FastGuard(req[rid].op) /\ eng["N"].holder # 0)
                /\ up[c] = "up" \/ known
                /\ up' = [up EXCEPT ![c] = "up"]
                /\ gen' = [gen EXCEPT ![c] = IF up[c] = "up" THEN @ ELSE @ + 1]
@@ -208,7 +230,7 @@ NodeProcess(c) ==
                /\ latest' = [latest EXCEPT ![c] = rid]
                /\ via' = [via EXCEPT ![rid] = [c |-> c, g |-> gen'[c]]]
                /\ twait' = IF c \in TextConns THEN [twait EXCEPT ![c] = rid] ELSE twait
-               /\ UNCHANGED <<rep, downq, dec, eng>>
+               /\ UNCHANGED <<rep, downq, dec, eng, fpbad>>
          /\ UNCHANGED <<role, known, req, orphan, nf, hist>>
 
 \* the leader reads one forwarded request and decides it
@@ -221,7 +243,7 @@ LeaderRecv(c) ==
           /\ downq' = RouteDown(d.out)
           /\ dec' = NewDec(d.out, rid, d.q)
           /\ upq' = [upq EXCEPT ![c] = Tail(@)]
-    /\ UNCHANGED <<role, known, req, inb, wrapped, first, up, gen, latest, twait, via, orphan, nf, hist>>
+    /\ UNCHANGED <<role, known, req, inb, wrapped, first, up, gen, latest, twait, via, orphan, fpbad, nf, hist>>
 
 \* one leader reply handed to the client connection
 Relay(c) ==
@@ -236,7 +258,7 @@ Relay(c) ==
                THEN /\ rep' = [rep EXCEPT ![c] = Append(@, [rid |-> r.rid, res |-> r.res, src |-> "relay"])]
                     /\ twait' = [twait EXCEPT ![c] = 0]
                ELSE UNCHANGED <<rep, twait>>
-    /\ UNCHANGED <<role, known, eng, req, inb, wrapped, first, up, gen, upq, dec, via, orphan, nf, hist>>
+    /\ UNCHANGED <<role, known, eng, req, inb, wrapped, first, up, gen, upq, dec, via, orphan, fpbad, nf, hist>>
 
 \* effect of the death of the upstream connections in set B
 InFlight(c) == {rid \in Rids : via[rid].c = c /\ via[rid].g = gen[c] /\ via[rid].g > 0 /\ ~Answered(rid)}
@@ -260,7 +282,7 @@ Break(c) ==
     /\ BreakSet({c})
     /\ nf' = nf + 1
     /\ hist' = H("break", c)
-    /\ UNCHANGED <<role, known, eng, req, inb, wrapped, first, gen, dec, via>>
+    /\ UNCHANGED <<role, known, eng, req, inb, wrapped, first, gen, dec, via, fpbad>>
 
 LeaderGone ==
     /\ known /\ nf < MaxFaults
@@ -268,34 +290,34 @@ LeaderGone ==
     /\ BreakSet({c \in NConns : up[c] = "up"})
     /\ nf' = nf + 1
     /\ hist' = H("gone", "")
-    /\ UNCHANGED <<role, eng, req, inb, wrapped, first, gen, dec, via>>
+    /\ UNCHANGED <<role, eng, req, inb, wrapped, first, gen, dec, via, fpbad>>
 
 LeaderBack ==
     /\ ~known
     /\ known' = TRUE
     /\ hist' = H("back", "")
-    /\ UNCHANGED <<role, eng, req, inb, wrapped, first, up, gen, upq, downq, latest, twait, rep, dec, via, orphan, nf>>
+    /\ UNCHANGED <<role, eng, req, inb, wrapped, first, up, gen, upq, downq, latest, twait, rep, dec, via, orphan, fpbad, nf>>
 
 Promote ==
     /\ role = "follower" /\ nf < MaxFaults
     /\ role' = "leader"
     /\ nf' = nf + 1
     /\ hist' = H("promote", "")
-    /\ UNCHANGED <<known, eng, req, inb, wrapped, first, up, gen, upq, downq, latest, twait, rep, dec, via, orphan>>
+    /\ UNCHANGED <<known, eng, req, inb, wrapped, first, up, gen, upq, downq, latest, twait, rep, dec, via, orphan, fpbad>>
 
 Demote ==
     /\ AllowDemote /\ role = "leader" /\ nf < MaxFaults
     /\ role' = "follower"
     /\ nf' = nf + 1
     /\ hist' = H("demote", "")
-    /\ UNCHANGED <<known, eng, req, inb, wrapped, first, up, gen, upq, downq, latest, twait, rep, dec, via, orphan>>
+    /\ UNCHANGED <<known, eng, req, inb, wrapped, first, up, gen, upq, downq, latest, twait, rep, dec, via, orphan, fpbad>>
 
 \* N's replica catches up with the leader's stream
 Replicate ==
     /\ role = "follower" /\ known
-    /\ eng["N"].holder # eng["L"].holder
-    /\ eng' = [eng EXCEPT !["N"].holder = eng["L"].holder]
-    /\ UNCHANGED <<role, known, req, inb, wrapped, first, up, gen, upq, downq, latest, twait, rep, dec, via, orphan, nf, hist>>
+    /\ <<eng["N"].holder, eng["N"].depth>> # <<eng["L"].holder, eng["L"].depth>>
+    /\ eng' = [eng EXCEPT !["N"].holder = eng["L"].holder, !["N"].depth = eng["L"].depth]
+    /\ UNCHANGED <<role, known, req, inb, wrapped, first, up, gen, upq, downq, latest, twait, rep, dec, via, orphan, fpbad, nf, hist>>
 
 \* a queued request times out at the engine that queued it
 TimeoutWaiter(n, i) ==
@@ -306,7 +328,7 @@ TimeoutWaiter(n, i) ==
           /\ rep' = RouteRep(out, "own")
           /\ downq' = RouteDown(out)
           /\ dec' = NewDec(out, rid, FALSE)
-    /\ UNCHANGED <<role, known, req, inb, wrapped, first, up, gen, upq, latest, twait, via, orphan, nf, hist>>
+    /\ UNCHANGED <<role, known, req, inb, wrapped, first, up, gen, upq, latest, twait, via, orphan, fpbad, nf, hist>>
 
 Next ==
     \/ \E c \in Conns, op \in Ops, lid \in Lids : ClientSend(c, op, lid)
@@ -347,13 +369,17 @@ OrphansAreBinary == \A rid \in orphan : req[rid].conn \in BinConns
 \* the non-leader's own engine state is changed by no client request: only by the leader's stream (and its own timers)
 NonLeaderEngineUntouched ==
     [][(role = "follower" /\ role' = "follower" /\ eng'["N"] # eng["N"]) =>
-          \/ (eng'["N"].holder = eng["L"].holder /\ eng'["N"].wq = eng["N"].wq)
-          \/ (eng'["N"].holder = eng["N"].holder /\ Len(eng'["N"].wq) < Len(eng["N"].wq))]_vars
+          \/ (eng'["N"].holder = eng["L"].holder /\ eng'["N"].depth = eng["L"].depth /\ eng'["N"].wq = eng["N"].wq)
+          \/ (eng'["N"].holder = eng["N"].holder /\ eng'["N"].depth = eng["N"].depth /\ Len(eng'["N"].wq) < Len(eng["N"].wq))]_vars
 
 \* the leader's engine is changed only by a request that reached it
 TypeOK == /\ role \in {"follower", "leader"} /\ known \in BOOLEAN
           /\ \A c \in NConns : up[c] \in {"none", "up"} /\ latest[c] \in 0..MaxReq
           /\ \A c \in TextConns : twait[c] \in 0..MaxReq /\ Len(upq[c]) + Len(downq[c]) <= 1
+
+\* the follower's fast path never refuses what the leader, in the same state, would grant (the two mirror paths agree);
+\* refuted when the guard is written with OR (FastPathOr = TRUE)
+FastPathAgreesWithLeader == ~fpbad
 
 \* NOT an invariant of the code as it is (RollbackLatestOnly = TRUE): TLC refutes it in 6 steps (two pipelined requests, break)
 NoOrphan == orphan = {}
